@@ -472,6 +472,7 @@ func runHist(h *hist, keys []keyInfo) {
 		case "remh":
 			if rm := subs[op.a].removers[op.b]; rm != nil {
 				rm()
+				delete(subs[op.a].removers, op.b)
 			}
 		case "rel":
 			sh := subs[op.a]
@@ -485,7 +486,18 @@ func runHist(h *hist, keys []keyInfo) {
 			// the message, then a marker on the marker channel; wait for the marker's handler
 			mu.Lock()
 			before := markerCount
+			invBefore := len(inv)
 			mu.Unlock()
+			// handler invocations this message must cause (plus one for the marker)
+			wantInv := 1
+			for _, sh := range subs {
+				if sh.ch == op.a && !sh.released.Load() {
+					wantInv += len(sh.removers)
+				}
+			}
+			if op.a == markerCh {
+				wantInv--
+			}
 			if !sendMsg(op.a, op.b) {
 				h.problem = "raw sender could not write"
 				return
@@ -519,6 +531,22 @@ func runHist(h *hist, keys []keyInfo) {
 				}
 				return stable >= 6
 			})
+			// confirm before going on: callbacks that are expected and missing may simply not have been
+			// scheduled yet: wait until the count has been unchanged for one second (at most 8 s)
+			cnt := func() int {
+				mu.Lock()
+				defer mu.Unlock()
+				return len(inv) - invBefore
+			}
+			if cnt() < wantInv {
+				deadline, stableSince, lastN := time.Now().Add(8*time.Second), time.Now(), cnt()
+				for time.Now().Before(deadline) && time.Since(stableSince) < time.Second && lastN < wantInv {
+					time.Sleep(5 * time.Millisecond)
+					if k := cnt(); k != lastN {
+						lastN, stableSince = k, time.Now()
+					}
+				}
+			}
 		case "quiesce":
 			// the loop re-evaluates at most every 100 ms: two passes may be needed
 			waitFor(3*time.Second, 5*time.Millisecond, func() bool {
